@@ -29,13 +29,27 @@ func VerifC20MockTyping() {
 	verif.Assert("C20/mock/accepted", NewWithOptions(p, Options{GenerateMock: true}).Generate() == nil)
 	mock := c14Find(verif.Trace(p), "_http_mock.pb.go")
 	verif.Assert("C20/mock/file-emitted", mock != nil)
-	// the assigned expression: select<T>Example(...) possibly wrapped in a conversion
-	sel, conv := "", ""
+	// the assigned expression: select<T>Example(...), possibly inside a conversion, inside a
+	// one-element slice literal []T{...} or a pointer helper proto.T(...)
+	sel, conv, shape, shapeType := "", "", "", ""
 	for _, l := range mock.Lines {
 		if !strings.HasPrefix(l, "resp.F1 = ") {
 			continue
 		}
 		rhs := l[len("resp.F1 = "):]
+		// the recording stub marks qualified identifiers as «import path».Name
+		rhs = strings.Replace(rhs, "«google.golang.org/protobuf/proto».", "proto.", 1)
+		if strings.HasPrefix(rhs, "[]") {
+			if i := strings.Index(rhs, "{"); i > 0 {
+				shape, shapeType, rhs = "slice", rhs[2:i], rhs[i+1:]
+			}
+		} else if strings.HasPrefix(rhs, "proto.") {
+			if i := strings.Index(rhs, "("); i > 0 {
+				helper := rhs[len("proto."):i]
+				shape, rhs = "pointer", rhs[i+1:]
+				shapeType = map[string]string{"String": "string", "Int32": "int32", "Int64": "int64", "Bool": "bool", "Float32": "float32", "Float64": "float64"}[helper]
+			}
+		}
 		for _, c := range []string{"int32", "float32"} {
 			if strings.HasPrefix(rhs, c+"(select") {
 				conv, rhs = c, rhs[len(c)+1:]
@@ -47,26 +61,31 @@ func VerifC20MockTyping() {
 	}
 	verif.Show("selector", sel)
 	verif.Show("conversion", conv)
+	verif.Show("shape", shape)
 	if sel == "" {
 		verif.Reach("C20/typing/no-selector-assignment")
 		return
 	}
-	singular := !a.list && !a.mp && !a.optional
-	// Go type of the assigned expression
+	// Go type of the example expression
 	exprType := map[string]string{"selectStringExample": "string", "selectIntExample": "int64", "selectBoolExample": "bool", "selectFloatExample": "float64"}[sel]
 	if conv != "" {
 		exprType = conv
 	}
 	fieldType := map[protoreflect.Kind]string{protoreflect.StringKind: "string", protoreflect.Int32Kind: "int32", protoreflect.Int64Kind: "int64",
 		protoreflect.BoolKind: "bool", protoreflect.FloatKind: "float32", protoreflect.DoubleKind: "float64"}[a.kind]
-	ok := singular && exprType != "" && exprType == fieldType
-	if singular && (a.kind == protoreflect.Int32Kind || a.kind == protoreflect.FloatKind) {
+	wantShape := ""
+	switch {
+	case a.list:
+		wantShape = "slice"
+	case a.optional:
+		wantShape = "pointer"
+	}
+	ok := !a.mp && exprType != "" && exprType == fieldType && shape == wantShape && (shape == "" || shapeType == fieldType)
+	if !a.list && !a.mp && !a.optional && (a.kind == protoreflect.Int32Kind || a.kind == protoreflect.FloatKind) {
 		verif.Reach("C20/typing/width") // region of the defect repaired in 1122cd4
 	}
-	if !singular {
-		verif.Expect("KF-C20-mock-assigns-scalar-selector-to-repeated-or-optional-field", ok)
-		verif.Reach("C20/typing/kf-cardinality")
-		return
+	if a.list || a.optional {
+		verif.Reach("C20/typing/cardinality") // region of the defect repaired in f79a179
 	}
 	verif.Assert("C20/selector-result-type-matches-field-type", ok)
 	verif.Reach("C20/typing/decided")
